@@ -134,6 +134,7 @@ func (s *Sleeper) AddWaker(w *Waker, id int) {
 	// Try to associate the waker with the sleeper. If it's already
 	// asserted, we simply enqueue it in the "ready" list.
 	for {
+		verifPoint(18, unsafe.Pointer(w))
 		p := (*Sleeper)(atomic.LoadPointer(&w.s))
 		if p == &assertedSleeper {
 			s.enqueueAssertedWaker(w)
@@ -152,6 +153,7 @@ func (s *Sleeper) nextWaker(block bool) *Waker {
 	// Attempt to replenish the local list if it's currently empty.
 	if s.localList == nil {
 		for atomic.LoadPointer(&s.sharedList) == nil {
+			verifPoint(1, unsafe.Pointer(s))
 			// Fail request if caller requested that we
 			// don't block.
 			if !block {
@@ -163,6 +165,7 @@ func (s *Sleeper) nextWaker(block bool) *Waker {
 			// waitingG back to zero (which we'll notice
 			// before committing the sleep).
 			atomic.StoreUintptr(&s.waitingG, preparingG)
+			verifPoint(2, unsafe.Pointer(s))
 
 			// Check if something was queued while we were
 			// preparing to sleep. We need this interleaving
@@ -179,12 +182,18 @@ func (s *Sleeper) nextWaker(block bool) *Waker {
 			// commitSleep to decide whether to immediately
 			// wake the caller up or to leave it sleeping.
 			const traceEvGoBlockSelect = 24
+			verifPoint(3, unsafe.Pointer(s))
+			if verifEnabled && verifPark(&s.waitingG) {
+				verifPoint(4, unsafe.Pointer(s))
+				continue
+			}
 			gopark(commitSleep, &s.waitingG, "sleeper", traceEvGoBlockSelect, 0)
 		}
 
 		// Pull the shared list out and reverse it in the local
 		// list. Given that wakers push themselves in reverse
 		// order, we fix things here.
+		verifPoint(5, unsafe.Pointer(s))
 		v := (*Waker)(atomic.SwapPointer(&s.sharedList, nil))
 		for v != nil {
 			cur := v
@@ -221,6 +230,7 @@ func (s *Sleeper) Fetch(block bool) (id int, ok bool) {
 
 		// Reassociate the waker with the sleeper. If the waker was
 		// still asserted we can return it, otherwise try the next one.
+		verifPoint(6, unsafe.Pointer(w))
 		old := (*Sleeper)(atomic.SwapPointer(&w.s, usleeper(s)))
 		if old == &assertedSleeper {
 			return w.id, true
@@ -243,6 +253,7 @@ func (s *Sleeper) Done() {
 	for w != nil {
 		next := w.allWakersNext
 		for {
+			verifPoint(7, unsafe.Pointer(w))
 			t := atomic.LoadPointer(&w.s)
 			if t != usleeper(s) {
 				w.allWakersNext = pending
@@ -263,6 +274,7 @@ func (s *Sleeper) Done() {
 	// to make it to the sleeper lists, so that we know that the wakers
 	// won't do any more work towards waking this sleeper up.
 	for pending != nil {
+		verifPoint(8, unsafe.Pointer(s))
 		pulled := s.nextWaker(true)
 
 		// Remove the waker we just pulled from the list of associated
@@ -284,8 +296,10 @@ func (s *Sleeper) Done() {
 func (s *Sleeper) enqueueAssertedWaker(w *Waker) {
 	// Add the new waker to the front of the list.
 	for {
+		verifPoint(9, unsafe.Pointer(s))
 		v := (*Waker)(atomic.LoadPointer(&s.sharedList))
 		w.next = v
+		verifPoint(10, unsafe.Pointer(s))
 		if atomic.CompareAndSwapPointer(&s.sharedList, uwaker(v), uwaker(w)) {
 			break
 		}
@@ -293,15 +307,19 @@ func (s *Sleeper) enqueueAssertedWaker(w *Waker) {
 
 	for {
 		// Nothing to do if there isn't a G waiting.
+		verifPoint(11, unsafe.Pointer(s))
 		g := atomic.LoadUintptr(&s.waitingG)
 		if g == 0 {
+			verifPoint(19, unsafe.Pointer(s))
 			return
 		}
 
 		// Signal to the sleeper that a waker has been asserted.
+		verifPoint(12, unsafe.Pointer(s))
 		if atomic.CompareAndSwapUintptr(&s.waitingG, g, 0) {
 			if g != preparingG {
 				// We managed to get a G. Wake it up.
+				verifPoint(13, unsafe.Pointer(s))
 				goready(g, 0)
 			}
 		}
@@ -348,11 +366,13 @@ func (w *Waker) Assert() {
 	// Nothing to do if the waker is already asserted. This check allows us
 	// to complete this case (already asserted) without any interlocked
 	// operations on x86.
+	verifPoint(14, unsafe.Pointer(w))
 	if atomic.LoadPointer(&w.s) == usleeper(&assertedSleeper) {
 		return
 	}
 
 	// Mark the waker as asserted, and wake up a sleeper if there is one.
+	verifPoint(15, unsafe.Pointer(w))
 	switch s := (*Sleeper)(atomic.SwapPointer(&w.s, usleeper(&assertedSleeper))); s {
 	case nil:
 	case &assertedSleeper:
@@ -371,12 +391,14 @@ func (w *Waker) Clear() bool {
 	// Nothing to do if the waker is not asserted. This check allows us to
 	// complete this case (already not asserted) without any interlocked
 	// operations on x86.
+	verifPoint(16, unsafe.Pointer(w))
 	if atomic.LoadPointer(&w.s) != usleeper(&assertedSleeper) {
 		return false
 	}
 
 	// Try to store nil in the sleeper, which indicates that the waker is
 	// not asserted.
+	verifPoint(17, unsafe.Pointer(w))
 	return atomic.CompareAndSwapPointer(&w.s, usleeper(&assertedSleeper), nil)
 }
 
